@@ -940,7 +940,8 @@ class RlRaggedMean(Family):
         RunLength2dArray.sum, RunLengthRaggedArray.col_counts = sum_stub, cc_stub
         try:
             if kind == "np.mean":
-                out = obj.__array_function__(np.mean, (RunLengthRaggedArray,), (obj,), {"axis": -1})
+                from ..sym.symnp import SYMNP
+                out = obj.__array_function__(SYMNP.mean, (RunLengthRaggedArray,), (obj,), {"axis": -1})     # the module's own (symbolic) numpy
             else:
                 axis = {"rows": -1, "rows[axis=1]": 1, "columns": 0, "columns[axis=-2]": -2}[kind]
                 out = obj.mean(axis=axis)
